@@ -156,3 +156,24 @@ def c12(ctx):
     ctx.assume(EXT_ASSUME)
     return ctx.finish(explanation="dominance of name validation over every internal expression evaluation; sibling agreement of the two join arms; "
                       "panic inventory of the select path. Which rows a join yields is not decided")
+
+
+@prop("C11")
+def c11(ctx):
+    from .rules import streams
+    prog = ctx.prog
+    streams.run(ctx)
+    inv = inventory(prog)
+    ctx.rule("PANIC(streams)", PANIC_TEXT)
+    pat = re.compile(r"Package::<F>::(has_stream|streams|read_stream|write_stream|remove_stream|remove_digital_signature|has_digital_signature)$|"
+                     r"internal::stream::Stream(Reader|Writer|s)")
+    entries = [f for f in prog.fns.values() if f.crate == "msi" and pat.search(f.name) and f.kind != "Closure"]
+    n = inv.run(ctx, "PANIC(streams)", entries, only=lambda f: f.file in ("src/internal/streamname.rs", "src/internal/stream.rs", "src/internal/package.rs"),
+                label="the stream API")
+    ctx.floor("PANIC(streams)", "potential panic sites on the stream API", n, 25)
+    ctx.floor("PANIC(streams)", "stream API entry points", len(entries), 12)
+    ctx.assume(EXT_ASSUME)
+    ctx.note("NOT decided: injectivity of streamname::encode over accepted names, non-aliasing under the container's name comparison, content round-trip")
+    return ctx.finish(explanation="must-validate dominance for the three stream operations, classification of every encode call site, listing filter "
+                      "against every *_STREAM_NAME constant, signature-removal constants, panic inventory of the stream API; injectivity of the "
+                      "name packing is a universal statement about a string function and is not decided")
